@@ -44,8 +44,10 @@ EXTRACT ("C10Quat", q_exp, "C10.Quat.exp", { IN (Quat, q); c.out (q.exp ()); })
 EXTRACT ("C10Quat", q_angle, "C10.Quat.angle", { IN (Quat, q); c.outS (q.angle ()); })
 EXTRACT ("C10Quat", q_axis, "C10.Quat.axis", { IN (Quat, q); c.out (q.axis ()); })
 EXTRACT ("C10Quat", q_setAxisAngle, "C10.Quat.setAxisAngle", { IN (Quat, q); IN (Vec3, axis); T radians = c.inS ("radians"); q.setAxisAngle (axis, radians); c.out (q); })
-// ---- setRotation (three paths: <= 90 degrees, split at the halfway vector, antipodal fallback)
-EXTRACT ("C10Quat", q_setRotation, "C10.Quat.setRotation", { IN (Quat, q); IN (Vec3, vfrom); IN (Vec3, vto); q.setRotation (vfrom, vto); c.out (q); })
+// ---- setRotation / rotationMatrix (three paths: <= 90 degrees, split at the halfway vector, antipodal fallback) are extracted by
+//      sym_c10c.cpp (ops_c10c.h, module C10Rot: `C10.Quat.setRotationMod`, `C10.rotationMatrixMod`) from the same two C++ functions,
+//      with the building blocks below as opaque calls.  The flat 115-path twins that used to be extracted here appeared in no theorem
+//      (audit W1) and were removed; the modular trees are validated bitwise against the real code (tv c10c) and at Rat (lean-tv c10c).
 // ---- building blocks of setRotation, extracted separately so that sym_c10c.cpp can call them opaquely (module C10Rot):
 //      Vec3::normalized and the private member Quat::setRotationInternal (reached through c10priv::Tag<T>::ptr, see sym_c10.cpp)
 EXTRACT ("C10Quat", v3_normalized, "C10.V3.normalized", { IN (Vec3, a); c.out (a.normalized ()); })
@@ -59,5 +61,4 @@ EXTRACT ("C10Quat", q_intermediate, "C10.Quat.intermediate", { IN (Quat, q0); IN
 
 // ---- ImathMatrixAlgo.h / ImathMatrix.h
 EXTRACT ("C10Algo", a_extractQuat, "C10.extractQuat", { IN (Matrix44, mat); c.out (extractQuat (mat)); })
-EXTRACT ("C10Algo", a_rotationMatrix, "C10.rotationMatrix", { IN (Vec3, vfrom); IN (Vec3, vto); c.out (rotationMatrix (vfrom, vto)); })
 EXTRACT ("C10Algo", a_m44_setAxisAngle, "C10.M44.setAxisAngle", { IN (Matrix44, m); IN (Vec3, axis); T angle = c.inS ("angle"); m.setAxisAngle (axis, angle); c.out (m); })
